@@ -34,6 +34,7 @@ class Prop(SeqProp):
     anchors = ["windpyutils/files.py"]
     quick_cases = 800
     thorough_cases = 2500
+    case_timeout = 120.0
     quick_mp = 24
     thorough_mp = 60
     rule = ("TmpPool: random create/remove/flush scripts with files deleted behind the pool's back, removal of unlisted paths, "
